@@ -111,6 +111,11 @@ func (r *requester) Tick() bool {
 		}
 
 		progress = true
+
+		if w.OnResponse != nil {
+			w.OnResponse(m.Meta().RspTo)
+		}
+
 		o, ok := r.out[m.Meta().RspTo]
 
 		if !ok {
